@@ -68,6 +68,13 @@ class Unregistered:
 
 
 TYPES["unregistered"] = Unregistered
+import datetime as _dt  # noqa: E402
+
+TYPES.update({
+    "XmlDuration": XmlDuration, "XmlPeriod": XmlPeriod, "XmlHexBinary": XmlHexBinary, "XmlBase64Binary": XmlBase64Binary,
+    "date": _dt.date, "time": _dt.time, "datetime": _dt.datetime,
+})
+PY_DT_TYPES = ("date", "time", "datetime")
 
 
 def enc_dec(d):
@@ -102,6 +109,20 @@ def enc_atom(v):
         return {"t": "date", "v": list(v)}
     if isinstance(v, XmlTime):
         return {"t": "time", "v": list(v)}
+    if isinstance(v, XmlDuration):
+        return {"t": "duration", "v": str(v)}
+    if isinstance(v, XmlPeriod):
+        return {"t": "period", "v": str(v)}
+    if isinstance(v, _dt.datetime):
+        if v.tzinfo is not None:
+            raise TypeError("aware datetime: outside the model")
+        return {"t": "pydatetime", "v": [v.year, v.month, v.day, v.hour, v.minute, v.second, v.microsecond]}
+    if isinstance(v, _dt.date):
+        return {"t": "pydate", "v": [v.year, v.month, v.day]}
+    if isinstance(v, _dt.time):
+        if v.tzinfo is not None:
+            raise TypeError("aware time: outside the model")
+        return {"t": "pytime", "v": [v.hour, v.minute, v.second, v.microsecond]}
     if isinstance(v, tuple):
         return {"t": "tuple", "v": [enc_atom(x) for x in v]}
     raise TypeError(f"cannot encode {v!r}")
@@ -131,6 +152,16 @@ def dec_atom(j):
         return XmlTime(*v)
     if t == "datetime":
         return XmlDateTime(*v)
+    if t == "duration":
+        return XmlDuration(v)
+    if t == "period":
+        return XmlPeriod(v)
+    if t == "pydate":
+        return _dt.date(*v)
+    if t == "pytime":
+        return _dt.time(*v)
+    if t == "pydatetime":
+        return _dt.datetime(*v)
     if t == "tuple":
         return tuple(dec_atom(x) for x in v)
     raise TypeError(t)
@@ -609,6 +640,7 @@ def gen_de(rng, tier):
     for c in gen_de_all(rng, tier):
         if not huge_exp_hazard(c):
             yield c
+    yield from gen_de_round_d(rng, tier)
 
 
 def gen_de_all(rng, tier):
@@ -768,6 +800,7 @@ def rand_enum(rng):
 
 
 def gen_ser(rng, tier):
+    yield from gen_ser_round_d(rng, tier)
     quick = tier == "quick"
     for v in FLOAT_EDGE:
         yield {"v": enc_atom(v), "kw": KW()}
@@ -819,6 +852,7 @@ def gen_test(rng, tier):
     for c in gen_test_all(rng, tier):
         if not huge_exp_hazard(c):
             yield c
+    yield from gen_test_round_d(rng, tier)
 
 
 def gen_test_all(rng, tier):
@@ -865,6 +899,7 @@ def gen_type_converter(rng, tier):
 
 
 def gen_from_value(rng, tier):
+    yield from gen_from_value_round_d(rng, tier)
     for b in (2**15, 2**31, 2**63):
         for d in (-2, -1, 0, 1, 2):
             yield {"v": enc_atom(b + d)}
@@ -946,6 +981,254 @@ def gen_text_split(rng, tier):
 # ---------------------------------------------------------------------------
 # classification (distribution buckets in evidence/C05.json)
 # ---------------------------------------------------------------------------
+
+# ---------------------------------------------------------------------------
+# round d: date/time/datetime with formats, XmlDuration/XmlPeriod, wrapper classes,
+# exact float repr
+# ---------------------------------------------------------------------------
+DT_FORMATS = [
+    "%Y-%m-%d", "%H:%M:%S", "%Y-%m-%dT%H:%M:%S", "%Y-%m-%dT%H:%M:%S.%f", "%d/%m/%Y", "%Y%m%d", "%H%M%S%f", "%d.%m.%Y %H:%M",
+    "%m%d", "%Y", "%H:%M:%S.%f", "%S", "%Y-%m-%d %H:%M:%S", "%%%Y", "%d %m  %Y", "T%H", "%Y-%m-%dZ", "%Y-%m-%d\t%H", "(%Y)[%m]", "%m-%d", "%M", "%f",
+    "%H.%M", "%Y+%m", "%d%m%Y", "%Y %m %d", " %Y", "%Y ", "x%dx",
+]
+DT_BAD_FORMATS = ["%Q", "%", "%Y%Y", "%Y-%", "% Y", "%.", "", "%Y-%m-%d%", "%k", "%-d", "%é", "%d%d"]
+DT_HAND = [
+    "2000-01-02", "2000-1-2", " 2000-01-02", "2000-01-02 ", "2000-02-30", "2000-02-29", "1900-02-29", "0000-01-01", "0001-01-01", "9999-12-31", "999-01-02",
+    "01:02:03", "1:2:3", "24:00:00", "23:59:60", "23:59:61", "00:00:00", "2000-01-02T03:04:05", "2000-01-02t03:04:05", "2000-01-02T03:04:05.5", "2000-01-02T03:04:05.123456",
+    "2000-01-02T03:04:05.1234567", "٢٠٠٠-01-02", "2000-٠١-02", "2000-01-0٢", "20000102", "2000012", "200001023", "0229", "229", "1231", "131", "31/12/1999", " 5/12/1999",
+    "5/12/1999", "05/ 5/1999", "31.12.1999 23:59", "31.12.1999  23:59", "31.12.1999\t23:59", "%2000", "2000", "20000", "200", "12", "1", "60", "61", "59", "0", "", " ",
+    "(2000)[12]", "T5", "t23", "T24", "2000-01-02Z", "2000-01-02z", "x5x", "X31X", "x32x", "2000+1", "2000 1 2", "2000  1  2", "02-29", "2-29", "123456", "1234567",
+    "010203000004", "0102030", "2000-01-02 03:04:05", "2000-01-0203:04:05",
+]
+
+
+def rand_py_dt(rng, t):
+    y = rng.choice([1, 9, 10, 99, 100, 999, 1000, 1900, 1904, 2000, 2024, 9999, rng.randint(1, 9999)])
+    m = rng.randint(1, 12)
+    d = rng.randint(1, 28) if rng.random() < 0.8 else _dt.date(y, m, 1).replace(day=28).day
+    us = rng.choice([0, 0, 1, 10, 4500, 100000, 123456, 999999, rng.randint(0, 999999)])
+    if t == "date":
+        return _dt.date(y, m, d)
+    if t == "time":
+        return _dt.time(rng.randint(0, 23), rng.randint(0, 59), rng.randint(0, 59), us)
+    return _dt.datetime(y, m, d, rng.randint(0, 23), rng.randint(0, 59), rng.randint(0, 59), us)
+
+
+def rand_dt_format(rng):
+    r = rng.random()
+    if r < 0.55:
+        return rng.choice(DT_FORMATS)
+    if r < 0.65:
+        return rng.choice(DT_BAD_FORMATS)
+    dirs = ["%Y", "%m", "%d", "%H", "%M", "%S", "%f", "%%"]
+    rng.shuffle(dirs)
+    lits = ["-", ":", "T", " ", "/", ".", "  ", "", "", "", "x", "1", "(", "+", "[", "Z"]
+    out = rng.choice(lits)
+    for d in dirs[: rng.randint(0, 6)]:
+        out += d + rng.choice(lits)
+    return out
+
+
+def gen_de_round_d(rng, tier):
+    from props import c06
+
+    quick = tier == "quick"
+    # every hand string x every hand format x the three stdlib types
+    for f in DT_FORMATS + DT_BAD_FORMATS + [None]:
+        for s in DT_HAND if (not quick or f in DT_FORMATS[:8] + DT_BAD_FORMATS[:4] + [None]) else DT_HAND[::5]:
+            for t in PY_DT_TYPES:
+                yield de_case(s, [t], KW(format=f))
+    for _ in range(1200 if quick else 60000):
+        t = rng.choice(PY_DT_TYPES)
+        f = rand_dt_format(rng)
+        v = rand_py_dt(rng, "datetime")
+        try:
+            s = v.strftime(f)
+        except Exception:  # noqa: BLE001
+            s = rng.choice(DT_HAND)
+        r = rng.random()
+        if r < 0.35:
+            for _ in range(rng.randint(1, 2)):
+                s = mutate(rng, s, "0123456789 -:T٣t.x/")
+        elif r < 0.45:
+            s = s.replace("0", "", 1)
+        elif r < 0.5:
+            s = pad(rng, s)
+        types = [t] if rng.random() < 0.8 else [rng.choice(PY_DT_TYPES + ("int", "str", "XmlDate")) for _ in range(rng.randint(2, 3))]
+        c = de_case(s, types, KW(format=f))
+        if len(types) > 1 and rng.random() < 0.5:
+            c["sort"] = True
+        yield c
+    # XmlDuration / XmlPeriod / wrapper classes as field types
+    for s in c06.DUR_HAND:
+        yield de_case(s.replace("\\n", "\n"), ["XmlDuration"])
+        yield de_case(s.replace("\\n", "\n"), ["XmlPeriod", "XmlDuration", "str"])
+    for s in c06.PERIOD_HAND:
+        yield de_case(s, ["XmlPeriod"])
+        yield {**de_case(s, ["str", "XmlPeriod", "int", "XmlDate"]), "sort": True}
+    gens = [c06.gen_dur(rng, "quick"), c06.gen_period(rng, "quick")]
+    for i, g in enumerate(gens):
+        for k, c in enumerate(g):
+            if quick and k > 500:
+                break
+            yield de_case(pad(rng, c["s"]), ["XmlDuration" if i == 0 else "XmlPeriod"])
+    for s in B64_HAND + HEX_HAND:
+        for t in ("XmlHexBinary", "XmlBase64Binary"):
+            for f in (None, "base16", "base64", "base32"):
+                yield de_case(s, [t], KW(format=f))
+
+
+def fmt_ser_supported(f):
+    """strftime formats inside the model: every % introduces a numeric directive or %%
+    (what glibc does with an unknown conversion is not modelled)"""
+    return f is None or re.fullmatch(r"(?:[^%]|%[YmdHMSf%])*", f) is not None
+
+
+def gen_ser_round_d(rng, tier):
+    for c in gen_ser_round_d_all(rng, tier):
+        if fmt_ser_supported(c["kw"].get("format")) or c["v"]["t"] not in ("pydate", "pytime", "pydatetime"):
+            yield c
+
+
+def gen_ser_round_d_all(rng, tier):
+    quick = tier == "quick"
+    for f in DT_FORMATS + DT_BAD_FORMATS + [None]:
+        for v in [_dt.date(999, 1, 2), _dt.date(1, 1, 1), _dt.date(2020, 2, 29), _dt.time(1, 2, 3, 4500), _dt.time(0, 0, 0), _dt.datetime(2000, 1, 2, 3, 4, 5, 6),
+                  _dt.datetime(9999, 12, 31, 23, 59, 59, 999999), _dt.datetime(1000, 10, 10, 10, 10, 10, 100000)]:
+            yield {"v": enc_atom(v), "kw": KW(format=f)}
+    for _ in range(600 if quick else 30000):
+        t = rng.choice(PY_DT_TYPES)
+        yield {"v": enc_atom(rand_py_dt(rng, t)), "kw": KW(format=rand_dt_format(rng))}
+    for s in ["P1D", "P2Y6M5DT12H35M30.5S", "-P1Y", "PT0.5S", "P١D"]:
+        yield {"v": {"t": "duration", "v": s}, "kw": KW()}
+    for s in ["2001", "2001-10", "--10", "--10-31", "---31", "2001Z", "--10+02:00", "-2001", "12345-10"]:
+        yield {"v": {"t": "period", "v": s}, "kw": KW()}
+        yield {"v": {"t": "list", "v": [{"t": "period", "v": s}, {"t": "duration", "v": "P1D"}]}, "kw": KW()}
+
+
+def gen_test_round_d(rng, tier):
+    for s in ["2001", " 2001 ", "2001-10", "--10", "---31\n", "2001-13", "P1D", " P1D", "x"]:
+        for t in ("XmlPeriod", "XmlDuration"):
+            for strict in (True, False):
+                yield {**de_case(s, [t]), "strict": strict}
+    for f in DT_FORMATS[:6]:
+        for s in DT_HAND[:30]:
+            for strict in (True, False):
+                yield {**de_case(s, [rng.choice(PY_DT_TYPES)], KW(format=f)), "strict": strict}
+
+
+def gen_from_value_round_d(rng, tier):
+    for s in ["2001", "2001-10", "--10", "--10-31", "---31", "2001Z", "--10+02:00", "-2001", "12345-10", "--05--", "0000"]:
+        try:
+            XmlPeriod(s)
+        except ValueError:
+            continue
+        yield {"v": {"t": "period", "v": s}}
+    yield {"v": {"t": "duration", "v": "P1D"}}
+    for t in PY_DT_TYPES:
+        yield {"v": enc_atom(rand_py_dt(rng, t))}
+
+
+def impl_float_repr(a):
+    try:
+        return ok(repr(float(a["s"])))
+    except ValueError:
+        return err("ValueError")
+
+
+def gen_float_repr(rng, tier):
+    import struct
+
+    quick = tier == "quick"
+    for s in NUM_HAND:
+        yield {"s": s}
+    # all floats with <= 3 significant digits x exponents -330..310 (thorough); a lattice of them (quick)
+    step_m, step_e = (37, 11) if quick else (1, 1)
+    off_m, off_e = rng.randrange(step_m), rng.randrange(step_e)
+    for m in range(1 + off_m, 1000, step_m):
+        for e in range(-330 + off_e, 311, step_e):
+            yield {"s": f"{m}e{e}"}
+    for m in (1, 2, 5, 9, 10, 99, 100, 999):
+        for e in range(-330, 311):
+            yield {"s": f"{m}e{e}"}
+    # powers of two and their neighbours, halfway cases between adjacent doubles, subnormals, the overflow threshold
+    for k in list(range(-1075, -1060)) + list(range(-1030, -1015)) + list(range(-5, 70)) + list(range(1015, 1025)):
+        x = Fraction(2) ** k
+        for num in (x, x * (1 + Fraction(1, 2**53)), x * (1 - Fraction(1, 2**54)), x * (1 + Fraction(3, 2**53)), x * (1 + Fraction(1, 2**52))):
+            d = Decimal(num.numerator) / Decimal(num.denominator) if False else None
+            n, dd = num.numerator, num.denominator
+            # exact decimal expansion of a dyadic rational
+            sh = max(dd.bit_length() - 1, 0)
+            yield {"s": f"{n * 5**sh}e-{sh}"}
+    for s in ["1.7976931348623157e308", "1.7976931348623158e308", "1.797693134862315807e308", "1.797693134862315808e308", "1.7976931348623159e308",
+              "4.9406564584124654e-324", "2.4703282292062327e-324", "2.4703282292062328e-324", "2.47032822920623272e-324", "9007199254740993", "9007199254740992.5",
+              "9007199254740993.000000000000000000001", "0.1", "0.2", "0.3", "1e23", "8.41e21", "2.2250738585072011e-308", "2.2250738585072014e-308", "5e-324", "3e-324", "2e-324"]:
+        yield {"s": s}
+        yield {"s": "-" + s}
+    for _ in range(3000 if quick else 150000):
+        r = rng.random()
+        if r < 0.5:
+            x = struct.unpack("<d", struct.pack("<Q", rng.getrandbits(64)))[0]
+            s = repr(x)
+            if r < 0.1:
+                s = mutate(rng, s, "0123456789e-.")
+        elif r < 0.8:
+            nd = rng.randint(1, 25)
+            s = f"{rng.randint(1, 10**nd)}e{rng.randint(-340, 310)}"
+        else:
+            s = f"{rng.randint(0, 10**6)}.{rng.randint(0, 10**rng.randint(1, 20))}"
+        yield {"s": s}
+
+
+def classify_float_repr(a, o):
+    if "err" in o:
+        return "err"
+    r = o["ok"]
+    if r in ("inf", "-inf", "nan"):
+        return "special"
+    if r.strip("-") == "0.0":
+        return "zero"
+    return ("exp" if "e" in r else "fixed") + ":" + str(min(len(r.replace("-", "").replace(".", "").split("e")[0].strip("0")), 17) // 6 * 6) + "+digits"
+
+
+def impl_strptime(a):
+    try:
+        d = _dt.datetime.strptime(a["s"], a["fmt"])
+    except Exception:  # noqa: BLE001  (ValueError, re.error: DateTimeBase.parse turns every exception into ConverterError)
+        return err("ValueError")
+    if d.tzinfo is not None:
+        return err("HARNESS:aware")
+    return ok([d.year, d.month, d.day, d.hour, d.minute, d.second, d.microsecond])
+
+
+def impl_strftime(a):
+    try:
+        return ok(_dt.datetime(*a["v"]).strftime(a["fmt"]))
+    except Exception:  # noqa: BLE001
+        return err("ValueError")
+
+
+def gen_strptime(rng, tier):
+    for c in gen_de_round_d(rng, tier):
+        if c["kw"]["format"] is not None and any(t in PY_DT_TYPES for t in c["types"] if isinstance(t, str)):
+            yield {"s": c["s"], "fmt": c["kw"]["format"]}
+
+
+def gen_strftime(rng, tier):
+    for c in gen_ser_round_d(rng, tier):
+        v = c["v"]
+        if c["kw"]["format"] is None or v["t"] not in ("pydate", "pytime", "pydatetime"):
+            continue
+        x = v["v"]
+        full = x + [0, 0, 0, 0] if v["t"] == "pydate" else [1900, 1, 1] + x if v["t"] == "pytime" else x
+        yield {"v": full, "fmt": c["kw"]["format"]}
+
+
+def classify_strptime(a, o):
+    n = a["fmt"].count("%")
+    return f"dirs{min(n, 4)}->" + ("err" if "err" in o else "ok")
+
+
 def _tyname(t):
     return t if isinstance(t, str) else "enum"
 
@@ -984,6 +1267,10 @@ CORRS = [
     Corr("conv.from_value", gen_from_value, impl_from_value, classify=lambda a, o: a["v"]["t"] + "->" + str(o.get("ok")), describe="DataType.from_value(value).code"),
     Corr("conv.float_lit", gen_float_lit, impl_float_lit, compare=cmp_float_lit, nontrivial=lambda a, o: len(a["s"]) > 1,
          describe="float(str) grammar: exact decimal read by the model, correctly rounded, vs repr(float(s))"),
+    Corr("conv.float_repr", gen_float_repr, impl_float_repr, classify=classify_float_repr, nontrivial=lambda a, o: "ok" in o,
+         describe="repr(float(s)) computed exactly in Lean (round-half-even to binary64, shortest repr) vs CPython"),
+    Corr("conv.strptime", gen_strptime, impl_strptime, classify=classify_strptime, describe="datetime.strptime for numeric directives vs the regex-order matcher"),
+    Corr("conv.strftime", gen_strftime, impl_strftime, describe="strftime (glibc: %Y unpadded) for numeric directives"),
     Corr("ns.split_qname", gen_split_qname, impl_split_qname, compare=cmp_split_qname),
     Corr("ns.build_qname", gen_build_qname, impl_build_qname),
     Corr("ns.is_ncname", gen_is_ncname, impl_is_ncname),
